@@ -27,7 +27,7 @@ PROPERTY = {
     "rule": "one case = one architecture / mode, one chunk of 100 byte strings and one group of failure classes (the classes of one known finding of that architecture, or every other class)",
     "trusted_base": ["CPython executes the real printers, parsers, assemblers and decoders; the sampling and the comparison are written in props/C16.py"],
     "assumptions": ["seeded family: 14 architectures / modes x 10 chunks x 100 strings quick (x 200 chunks thorough)",
-                    "curated family: every vector of test/arch/{x86,arm,aarch64,mips32,ppc32,msp430}/arch.py (read with ast) (quick: every tenth group of 10 vectors)",
+                    "curated family: every vector of test/arch/{x86,arm,aarch64,mips32,ppc32,msp430}/arch.py (read with ast)",
                     "an instruction the decoder refuses is not a case"],
 }
 
@@ -122,7 +122,7 @@ class ParseCases(BoundedContract):
             fam = family(ARCHS[a][0])
             gids = sorted(g for g, (f, _) in known_groups("C16").items() if f == fam) + [""]
             ncur = (len(C15.curated(ARCHS[a][0])) + C15.CUR_CHUNK - 1) // C15.CUR_CHUNK
-            ks = list(range(n)) + [("cur", j) for j in range(ncur) if self.tier != "quick" or j % 10 == 0]
+            ks = list(range(n)) + [("cur", j) for j in range(ncur)]
             out += [(a, k, g) for k in ks for g in gids]
         return out
 
